@@ -276,6 +276,35 @@ def fixture_numarr(eng, path, no_missing=False):
     return obs
 
 
+def numarr_3d(eng, measure="sum", nsub=2, nr=2, nc=3):
+    """a numeric array grouped by TWO categorical variables: one slice per sub-variable, each a categorical x categorical table;
+    the payload carries the sub-variable axis last"""
+    def cat_dim(alias, n):
+        return {"derived": False, "references": {"alias": alias, "name": alias},
+                "type": {"ordinal": False, "class": "categorical",
+                         "categories": [{"numeric_value": None, "id": i + 1, "name": "%s%d" % (alias, i + 1), "missing": False} for i in range(n)]}}
+    subs = ["S%d" % (i + 1) for i in range(nsub)]
+    meta = {"derived": True, "references": {"alias": "tickets", "name": "tickets", "subreferences": [{"alias": x, "name": x} for x in subs]},
+            "type": {"class": "numeric", "subvariables": subs}}
+    T = np.empty((nsub, nr, nc), dtype=object)
+    for n, idx in enumerate(np.ndindex(T.shape)):
+        T[idx] = eng.real("x%d" % n)
+    payload = [T[s_, i, j] for i in range(nr) for j in range(nc) for s_ in range(nsub)]
+    resp = {"result": {"dimensions": [cat_dim("R", nr), cat_dim("C", nc)], "counts": [5] * (nr * nc), "n": 5 * nr * nc,
+                       "measures": {measure: {"data": SymList(payload), "n_missing": 0, "metadata": meta},
+                                    "valid_count_unweighted": {"data": [5] * (nsub * nr * nc), "n_missing": 0, "metadata": meta}}}}
+    parts = Cube(resp).partitions
+    prop = {"mean": "means", "sum": "sums", "stddev": "stddev", "median": "medians"}[measure]
+    obs = [Obs("n_partitions", len(parts), nsub, kind="same")]
+    for k in range(min(nsub, len(parts))):
+        want = np.empty((nr, nc), dtype=object)
+        for i in range(nr):
+            for j in range(nc):
+                want[i, j] = T[k, i, j]
+        obs.append(Obs("p%d.%s" % (k, prop), getattr(parts[k], prop), want))
+    return obs
+
+
 def nub(eng):
     """0-D cube: the mean and the unweighted count the response carries"""
     import json
@@ -354,6 +383,8 @@ def specs(tier):
     for f in ["num-arr-means-grouped-by-cat.json", "num-arr-sum-grouped-by-cat.json"] + (["num-arr-means-grouped-by-date.json", "num-arr-median-grouped-by-cat.json"] if tier == "thorough" else []):
         out.append(dict(module=M, fn="fixture_numarr", name="numeric array fixture " + f + " (grouping without a missing category)",
                         params=dict(path=FX + "numeric_arrays/" + f, no_missing=True), max_paths=1500))
+    add("numeric array grouped by two categoricals (3-D), sums", "numarr_3d", dict())
+    add("numeric array grouped by two categoricals (3-D), means", "numarr_3d", dict(measure="mean", nsub=3, nr=3, nc=2))
     add("0-D cube (nub)", "nub", dict())
     # carried measures in 3-D cubes, a multiple-response dimension in each of the three positions
     add("carried median 3d cat x mr x cat p1", "carried3", dict(table=V("cat", "t", 2, (0,)), rows=V("mr", "a", 2), cols=V("cat", "b", 2, (1,)), measure="median", k=1))
